@@ -7,8 +7,8 @@ MONS = [M.mon_c03]
 def items(tier):
     out = []
     if tier == "quick":
-        flows = list(F.flows(3, ("FS", "SS"), (1, 2)))
-        lays = ("POOL1", "POOL2", "SOLO")
+        flows = list(F.flows(3, ("FS", "SS"), (1, 2))) + [fl for fl in F.flows(3, ("FF", "SF"), (1, 2, 3)) if fl["links"]][::3]
+        lays = ("POOL1", "POOL2", "SOLO", "DED")
         rules = ("TSLACK", "FIFO")
         fac = list(F.fac_specs("quick"))
     else:
@@ -45,7 +45,7 @@ def run(tier, seed):
         ri.append((sp, dict(o, presim=1)))
         ri.append((sp, dict(o, backward=True, rev=True)))
     col.merge(stepcheck.explore(ri, MONS, 0, 0, seed=seed))
-    lit = [(sp, {"rule": "TSLACK", "max_time": 20}) for sp in F.unsorted_absence_specs() + F.same_name_task_specs()]
+    lit = [(sp, {"rule": "TSLACK", "max_time": 20}) for sp in F.unsorted_absence_specs() + F.same_name_task_specs() + F.double_link_specs() + F.three_level_product_specs()]
     col.merge(stepcheck.explore(lit, MONS, 0, 0, seed=seed))
     col.merge(stepcheck.explore(stepcheck.edited_items(), MONS, 0, 0, seed=seed))  # runs after an earlier run and an in-place model edit
     meta = {
